@@ -809,7 +809,9 @@ pub fn run<P: Property>(p: &mut P, cfg: &RunCfg) -> Outcome {
         "wall_s": wall,
         "violations": failures.len(),
     });
-    let evpath = cfg.evidence_path.clone().unwrap_or_else(|| format!("/verif/evidence/{}.json", id));
+    // AXVERIF_EVIDENCE_DIR: drills against deliberately broken trees must not overwrite the real evidence
+    let evdir = std::env::var("AXVERIF_EVIDENCE_DIR").unwrap_or_else(|_| "/verif/evidence".to_string());
+    let evpath = cfg.evidence_path.clone().unwrap_or_else(|| format!("{}/{}.json", evdir, id));
     let _ = std::fs::create_dir_all(std::path::Path::new(&evpath).parent().unwrap());
     std::fs::write(&evpath, serde_json::to_string_pretty(&ev).unwrap()).expect("write evidence");
 
